@@ -3766,13 +3766,42 @@ func (c *ControlPlane) ReuseDNSControllerFrom(previous *ControlPlane) bool {
 	if c == nil || previous == nil {
 		return false
 	}
-	return c.reuseDNSControllerFrom(
+	if !c.reuseDNSControllerFrom(
 		&previous.controlPlaneDNSRuntime,
 		c.dnsControllerOption(),
 		c.dnsRouting,
 		c.log,
 		previous.SetDNSHandoffController,
-	)
+	) {
+		return false
+	}
+	c.republishAdoptedDnsCache()
+	return true
+}
+
+// republishAdoptedDnsCache makes domain_routing_map describe the DNS cache this generation has just adopted
+// from its predecessor. The adopted store holds the predecessor's cache objects: their domain bitmaps were
+// computed by the previous routing rules, and entries may have been added or removed since the reload cache was
+// cloned, whereas CommitPreparedDatapath published that (now stale) clone with this generation's bitmaps from a
+// controller that has just been closed. Start over from what is cached now: empty map, empty tracker, every
+// live entry re-matched against this generation's rules and published.
+func (c *ControlPlane) republishAdoptedDnsCache() {
+	if c.core == nil || c.routingMatcher == nil || c.routingMatcher.domainMatcher == nil || c.dnsController == nil {
+		return
+	}
+	bpf := c.core.PeekBpf()
+	if bpf == nil {
+		return
+	}
+	if err := clearReloadDomainRoutingMap(bpf); err != nil {
+		c.log.WithError(err).Warn("[Reload] failed to clear domain_routing_map before republishing the adopted DNS cache")
+		return
+	}
+	if c.core.domainRouting != nil {
+		c.core.domainRouting.reset()
+	}
+	c.pendingDnsReloadCache = c.CloneDnsCache()
+	c.replayDnsReloadCache()
 }
 
 func (c *ControlPlane) SetPreparedDNSStartHook(hook func() error) {
